@@ -79,6 +79,25 @@ def handle (inp : String) (out : String) : String :=
       let m := serialize t r
       verdict s!"ser:{clsOf m}" (showRes m) out (serOracle t r ow)
     | _, _ => "skip bad-ser-args"
+  | ["wb", tr, room, opt] =>
+    match parseTree tr, room.toNat?, opt.toNat? with
+    | some t, some r, some o =>
+      let withHdr := o % 2 == 0
+      let m := serTlv t r withHdr
+      let spec : Option String :=
+        if withHdr then serOracle t r ow
+        else match ow with
+          | st :: hx :: _ => if st == "0" && hx != toHex (payload t) then some "payload-written-is-not-the-format-payload" else none
+          | _ => none
+      verdict s!"wb:opt{o}:{clsOf m}" (showRes m) out spec
+    | _, _, _ => "skip bad-wb-args"
+  | ["reraw", tr, hx] =>
+    match parseTree tr, ofHex hx with
+    | some t, some b =>
+      let t' := Tlv.raw t.tag t.nc t.fwd b
+      let m := serialize t' 70000
+      verdict s!"reraw:{clsOf m}" (showRes m) out (serOracle t' 70000 ow)
+    | _, _ => "skip bad-reraw-args"
   | ["elser", tr, room] =>
     match parseTree tr, room.toNat? with
     | some t, some r =>
@@ -132,7 +151,17 @@ def handle (inp : String) (out : String) : String :=
         match expand b with
         | .ok ts => s!"0 {ts.length} {b.length}"
         | .error e => s!"{e}"
-      verdict s!"ftlvn:{(ms.splitOn " ").head!}" ms out none
+      -- the array has room for every element the input can hold: what is accepted is the whole input as a row of elements,
+      -- judged by the independent tiling of the specification
+      let spec : Option String :=
+        match ow with
+        | ["0", cnt, total] =>
+          match specTile (b.length + 1) b with
+          | some row =>
+            if cnt.toNat? != some row.length || total.toNat? != some b.length then some s!"accepted-{cnt}-elements-{total}-octets-of-{row.length}-elements-{b.length}-octets" else none
+          | none => some s!"accepted-{cnt}-elements-of-an-input-that-is-not-a-row-of-elements"
+        | _ => none
+      verdict s!"ftlvn:{(ms.splitOn " ").head!}" ms out spec
     | none => "skip bad-hex"
   | ["stream", hx, bl] =>
     match ofHex hx, bl.toNat? with
